@@ -19,12 +19,14 @@
 (declare-fun X._reflect.Value_.Pointer.r0 (RV) (_ BitVec 64))
 (declare-fun X._reflect.Value_.MapIndex.r0 (RV RV) RV)
 (declare-fun X._reflect.Value_.CanAddr.r0 (RV) Bool)
+(declare-fun X._reflect.Value_.IsNil.r0 (RV) Bool)
 (declare-fun X.reflect.Type.NumField.r0 (RT) (_ BitVec 64))
 (declare-fun X.reflect.Type.Kind.r0 (RT) (_ BitVec 64))
 (declare-fun X.reflect.Type.Name.r0 (RT) Str)
 (declare-fun X.reflect.Type.Field.r0.Name (RT (_ BitVec 64)) Str)
 (define-fun R.valueOf ((i Iface)) RV (X.reflect.ValueOf.r0 i))
 (define-fun R.canAddr ((v RV)) Bool (X._reflect.Value_.CanAddr.r0 v))
+(define-fun R.isNil ((v RV)) Bool (X._reflect.Value_.IsNil.r0 v))
 (define-fun R.pointer ((v RV)) (_ BitVec 64) (X._reflect.Value_.Pointer.r0 v))
 (define-fun R.kind ((v RV)) (_ BitVec 64) (X._reflect.Value_.Kind.r0 v))
 (define-fun R.len ((v RV)) (_ BitVec 64) (X._reflect.Value_.Len.r0 v))
